@@ -228,6 +228,53 @@ def directory_twin(chk, ex_mod, ge_mod):
         chk.side_check("directory twin: table read whatever other VAR_tp_* entries exist and in whatever order glob lists them (%d runs)" % n_orders, True)
 
 
+def precision_twin(chk, ex_mod, ge_mod):
+    """Printing twin: tables written the way the package writes them (qha's save_x_tp: '%.15e') are read back, a line / the nodes are
+    selected, and the result is printed.  'Exactly the table row' / 'the table entry itself' / 'columns unchanged' includes what the
+    user finally gets on stdout: the printed numbers parse back to the table's (relative 1e-12)."""
+    from click.testing import CliRunner
+    temps = [300.0, 400.0, 500.0, 600.0, 700.0]
+    press = [0.0, 10.0, 20.0, 30.0, 40.0]
+    f = lambda t, p: (1000.0 + 0.37 * t + 2.1 * p) / 7.3
+    tmp = tempfile.mkdtemp(prefix="c19p_")
+    cwd = os.getcwd()
+    bad = []
+    try:
+        Zv = numpy.array([[f(t, p) for p in press] for t in temps])
+        with open(os.path.join(tmp, "bm_tp_gpa.txt"), "w") as fp:
+            fp.write(pandas.DataFrame(Zv, index=temps, columns=press).to_string(float_format=lambda x: "%.15e" % x))
+        with open(os.path.join(tmp, "geo.txt"), "w") as fp:
+            fp.write("P T D\n10 400 1.123456789\n30 600.123456789 2\n")
+        os.chdir(tmp)
+        rel = lambda a, b: float(numpy.max(numpy.abs(numpy.asarray(a, dtype=float) - numpy.asarray(b, dtype=float)) / numpy.abs(numpy.asarray(b, dtype=float))))
+        with warnings.catch_warnings():
+            warnings.simplefilter("ignore")
+            r = CliRunner().invoke(ex_mod.main, ["-v", "bm", "-T", "400"])
+            g = CliRunner().invoke(ge_mod.main, ["-g", "geo.txt", "-v", "bm"])
+        if r.exit_code != 0 or g.exit_code != 0:
+            chk.note("precision twin: command failed: %r %r" % (r.exception, g.exception))
+            return
+        got = pandas.read_table(io.StringIO(r.output), sep=r"\s+", index_col=0)
+        d = rel(got["bm"].to_numpy(), Zv[1, :])
+        if d > 1e-12:
+            bad.append(("extract:precision", "cij extract -v bm -T 400 prints the table line %s as %s (relative change %.1e): the values are "
+                        "cut to six decimals whatever their magnitude" % ([repr(v) for v in Zv[1, :2]], r.output.split("\n")[1:3], d)))
+        gg = pandas.read_table(io.StringIO(g.output), sep=r"\s+")
+        d2 = rel([gg["bm"][0]], [f(400, 10)])
+        d3 = max(rel([gg["T"][1]], [600.123456789]), rel([gg["D"][0]], [1.123456789]))
+        if d2 > 1e-10 or d3 > 1e-12:
+            bad.append(("geotherm:precision", "cij extract-geotherm prints the node entry %r as %r and the geotherm's own T = 600.123456789, "
+                        "D = 1.123456789 as %r, %r: six decimals whatever the magnitude" % (f(400, 10), float(gg["bm"][0]), float(gg["T"][1]), float(gg["D"][0]))))
+    finally:
+        os.chdir(cwd)
+        import shutil
+        shutil.rmtree(tmp, ignore_errors=True)
+    for key, what in bad:
+        chk.violation(key, what, dict(temps=temps, press=press, table="(1000 + 0.37 T + 2.1 P) / 7.3 written with %.15e"))
+    if not bad:
+        chk.side_check("precision twin: printed values parse back to the table's to 1e-12 (extract) / 1e-10 (geotherm node)", True)
+
+
 def geotherm_obligations(chk, ge_mod, tier, rng):
     temps = [300.0, 500.0, 700.0]
     press = [0.0, 10.0, 20.0, 30.0]
@@ -384,6 +431,7 @@ def main():
     extract_obligations(chk, ex_mod, tier, rng)
     geotherm_obligations(chk, ge_mod, tier, rng)
     directory_twin(chk, ex_mod, ge_mod)
+    precision_twin(chk, ex_mod, ge_mod)
     chk.bound(extract="4 temperatures x 3 pressures, 2 variables, requested value symbolic over the whole range (+-50 beyond)",
               geotherm="3 x 4 table, 3 geotherm rows with symbolic (P, T, D), default and custom column options")
     chk.stub("load_data -> symbolic table (file discovery by glob and pandas parsing are outside); scipy RectBivariateSpline -> uninterpreted "
